@@ -214,6 +214,27 @@ func (c *ctx) linkCase(cs M) {
 	if c.rnd.Intn(2) == 0 {
 		rp = &linkRxStream
 	}
+	// when the exchange is over the receiver does what it likes with ITS frame value (turns it into a reply, clears it):
+	// everything reachable through exported members is overwritten; later exchanges must not notice
+	defer func() {
+		observeFast(func() error {
+			if mp, ok := rp.MACPayload.(*lorawan.MACPayload); ok {
+				if mp.FPort != nil {
+					*mp.FPort ^= 0x5a
+				}
+				for _, l := range [][]lorawan.Payload{mp.FHDR.FOpts, mp.FRMPayload} {
+					for _, it := range l {
+						if dp, ok := it.(*lorawan.DataPayload); ok {
+							for i := range dp.Bytes {
+								dp.Bytes[i] ^= 0xff
+							}
+						}
+					}
+				}
+			}
+			return nil
+		})
+	}()
 	verdict := "none"
 	sentHi := unle32(toIfaceInts(orig["fcnt"].([]int))) & 0xffff0000
 	for _, op := range strs(cs["rops"]) {
